@@ -398,7 +398,29 @@ class CodeSide(object):
         self.tree = ast.parse(self.src)
         self.funcs = {}
         self.patterns = {}      # name -> {'src', 'ast', 'end', 'lean'} or {'src', 'unsupported'}
+        env = {}                # module-level string constants (a pattern may be assembled from them with `+`)
+        def fold(n):
+            if isinstance(n, ast.Constant) and isinstance(n.value, str):
+                return n.value
+            if isinstance(n, ast.Name) and n.id in env:
+                return env[n.id]
+            if isinstance(n, ast.BinOp) and isinstance(n.op, ast.Add):
+                l, r = fold(n.left), fold(n.right)
+                return l + r if l is not None and r is not None else None
+            if isinstance(n, ast.IfExp) and isinstance(n.test, ast.Compare) and _u(n.test.left) == 'sys.maxunicode' \
+                    and len(n.test.ops) == 1 and isinstance(n.test.ops[0], ast.GtE) \
+                    and isinstance(n.test.comparators[0], ast.Constant) and isinstance(n.test.comparators[0].value, int):
+                # `X if sys.maxunicode >= K else Y`: the reading of THIS interpreter (the one the correspondence runs on)
+                import sys as _sys
+                return fold(n.body if _sys.maxunicode >= n.test.comparators[0].value else n.orelse)
+            return None
         for node in self.tree.body:
+            if isinstance(node, ast.Assign) and len(node.targets) == 1 and isinstance(node.targets[0], ast.Name):
+                v = fold(node.value)
+                if v is not None:
+                    env[node.targets[0].id] = v
+                else:
+                    env.pop(node.targets[0].id, None)
             if isinstance(node, ast.FunctionDef):
                 self.funcs[node.name] = node
             elif isinstance(node, ast.Assign) and len(node.targets) == 1 and isinstance(node.targets[0], ast.Name) \
@@ -407,9 +429,8 @@ class CodeSide(object):
                 name = node.targets[0].id
                 args = node.value.args
                 ent = {'src': None}
-                if len(args) == 1 and isinstance(args[0], ast.Constant) and isinstance(args[0].value, str) \
-                        and not node.value.keywords:
-                    ent['src'] = args[0].value
+                if len(args) == 1 and fold(args[0]) is not None and not node.value.keywords:
+                    ent['src'] = fold(args[0])
                     try:
                         a, end = parse_regex(ent['src'], 'py')
                         ent.update(ast=a, end=end, lean=re_lean(a))
@@ -779,6 +800,12 @@ class Translation(object):
         if at[0] == 'data':
             ty = at[1] if at[1] in XSD_TYPES else 'other'
             return '.data .%s %s' % (ty, 'none' if at[2] is None else '(some %d)' % self.spid[at[2]])
+        if at[0] == 'list':
+            body = at[1]
+            if body and all(part[0] == 'item' and len(part[1]) == 1 and part[1][0][0] == 'data' and part[1][0][2] is None
+                            and not part[1][0][3] and part[1][0][1] in XSD_TYPES for part in body) \
+                    and len(set(part[1][0][1] for part in body)) == 1:
+                return '.listN .%s %d' % (body[0][1][0][1], len(body))
         return '.' + at[0]
 
     def lean_schema(self):
